@@ -30,9 +30,9 @@ func init() {
 		Floor:         floor,
 		MinNontrivial: 50,
 		Phases: []fw.Phase{
-			{Name: "faults", N: func(t fw.Tier) int { return pick(t, 1000, 60000) }, Run: c19Faults},
-			{Name: "raise", N: func(t fw.Tier) int { return pick(t, 300, 20000) }, Run: c19Raise},
-			{Name: "typeerr", N: func(t fw.Tier) int { return pick(t, 400, 20000) }, Run: c19TypeErr},
+			{Name: "faults", N: func(t fw.Tier) int { return pick(t, 3000, 80000) }, Run: c19Faults},
+			{Name: "raise", N: func(t fw.Tier) int { return pick(t, 900, 25000) }, Run: c19Raise},
+			{Name: "typeerr", N: func(t fw.Tier) int { return pick(t, 1200, 25000) }, Run: c19TypeErr},
 		},
 		Witness: sqlWitness,
 	})
